@@ -6,9 +6,22 @@
                                    over the atoms 0,1,2,… as an s-expression, or `none`
    R <kw> <kw> ...              -> `<#if> <#then> <#else> <priority|->`: how `parse_rules_lines` sorts the lines of ONE rule
                                    (kw in if and or then else priority:<p>); AND/OR are atoms or actions by the block they are in
+   F <k> <p/q>                  -> `<string> <p/q>`: the model of '{:.kf}'.format(x) (characters) and the value read back
+   G <n> <p/q>                  -> `<p/q>`: the value read back from '{:.ng}'.format(x), `none` when the mantissa is not normalised
    anything else                -> bad -/
 import WntrModel.Model.InpText
 open Wntr.InpText
+
+def parseRat (s : String) : Option Rat :=
+  match s.splitOn "/" with
+  | [a, b] => do
+    let n ← a.toInt?
+    let d ← b.toNat?
+    if d == 0 then none else some ((n : Rat) / (d : Rat))
+  | [a] => (fun n : Int => (n : Rat)) <$> a.toInt?
+  | _ => none
+
+def showRat (r : Rat) : String := s!"{r.num}/{r.den}"
 
 def showTree : Cond Nat → String
   | .atom a => toString a
@@ -53,6 +66,19 @@ def handle (line : String) : String :=
     match h.toInt?, m.toInt?, s.toInt? with
     | some h, some m, some s => toString (parseClock h m s (ap == "PM"))
     | _, _, _ => "bad"
+  | ["F", k, x] =>
+    match k.toNat?, parseRat x with
+    | some k, some x =>
+      let d := Wntr.InpFormat.fixWrite k x
+      s!"{d.render (decide (x < 0) && d.value == 0)} {showRat d.value}"
+    | _, _ => "bad"
+  | ["G", n, x] =>
+    match n.toNat?, parseRat x with
+    | some n, some x =>
+      match Wntr.InpFormat.sigWrite n x with
+      | some ms => showRat (Wntr.InpFormat.sigValue ms)
+      | none => "none"
+    | _, _ => "bad"
   | "C" :: ws =>
     match ws.mapM conjOf with
     | some cs => match parse (number cs) with
